@@ -747,6 +747,91 @@ def rule_R30_and_then(text, log):
 
 
 
+def _closure_parts(arg):
+    """`|PAT| BODY` -> (PAT, BODY); a path `a::b` -> (None, path)"""
+    a = arg.strip().rstrip(',').strip()
+    if a.startswith('|'):
+        j = 1
+        depth = 0
+        while j < len(a):
+            c = a[j]
+            if c in '([':
+                depth += 1
+            elif c in ')]':
+                depth -= 1
+            elif c == '|' and depth == 0:
+                break
+            j += 1
+        return a[1:j].strip(), a[j + 1:].strip()
+    if re.match(r'^[A-Za-z_][\w:]*$', a):
+        return None, a
+    raise Unsupported('R31: predicate argument is neither a closure nor a path')
+
+
+def rule_R31_iter_predicates(text, log):
+    """`S.iter().position(P)` / `.rposition(P)` / `.any(P)` / `.all(P)` / `S.iter().enumerate().position(P)`
+       -> `vx_it_position(&S, |vx_e| -> (vx_r: bool) ensures vx_r == ({ let PAT = vx_e; BODY }) { let PAT = vx_e; BODY })` etc.
+    The prelude functions are loops verified against the predicate's own contract; the predicate's body is the repository's,
+    its `ensures` restates that body (a body that is not a specification expression leaves the subset)."""
+    out = text
+    rx = re.compile(r'\.\s*iter\(\)\s*(\.\s*enumerate\(\)\s*)?\.\s*(position|rposition|any|all)\s*\(')
+    pos = 0
+    while True:
+        mask = code_mask(out)
+        mm = next((m for m in rx.finditer(out) if m.start() >= pos and mask[m.start()]), None)
+        if not mm:
+            return out
+        op = mm.end() - 1
+        cl = match_brace(out, mask, op)
+        try:
+            pat, body = _closure_parts(out[op + 1:cl])
+        except Unsupported:
+            pos = mm.end()
+            continue
+        enum = mm.group(1) is not None
+        kind = mm.group(2)
+        if enum and kind != 'position':
+            pos = mm.end()
+            continue
+        rs = _recv_start(out, mask, mm.start())
+        recv = re.sub(r'\s*\.\s*', '.', norm_ws(out[rs:mm.start()]))
+        if pat is None:
+            expr = '%s(vx_e)' % body
+        else:
+            expr = '{ let %s = vx_e; %s }' % (pat, body)
+        req = ''
+        if enum:
+            req = ' requires vx_e.0 < (&%s).len()' % recv
+        fn = 'vx_it_enum_position' if enum else 'vx_it_' + kind
+        new = '%s(&%s, |vx_e| -> (vx_r: bool)%s ensures vx_r == (%s) %s)' % (fn, recv, req, expr, expr if expr.startswith('{') else '{ %s }' % expr)
+        pad = '\n' * max(0, out[rs:cl + 1].count('\n') - new.count('\n'))
+        log.append(('R31', norm_ws(out[rs:cl + 1])[:120], norm_ws(new)[:200]))
+        out = out[:rs] + new + pad + out[cl + 1:]
+        pos = rs + len(fn)
+
+
+def rule_R32_or_else(text, log):
+    """`OPT.or_else(|| B)` -> `(match OPT { Some(vx_v) => Some(vx_v), None => B })` (definition of Option::or_else)"""
+    out = text
+    rx = re.compile(r'\.\s*or_else\s*\(\s*\|\|')
+    while True:
+        mask = code_mask(out)
+        mm = next((m for m in rx.finditer(out) if mask[m.start()]), None)
+        if not mm:
+            return out
+        op = out.index('(', mm.start())
+        cl = match_brace(out, mask, op)
+        clo = out[op + 1:cl].strip()
+        body = clo[2:].strip()
+        rs = _recv_start(out, mask, mm.start())
+        recv = out[rs:mm.start()]
+        new = '(match %s { Some(vx_v) => Some(vx_v), None => %s })' % (recv, body)
+        pad = '\n' * max(0, out[rs:cl + 1].count('\n') - new.count('\n'))
+        log.append(('R32', norm_ws(out[rs:cl + 1])[:120], norm_ws(new)[:160]))
+        out = out[:rs] + new + pad + out[cl + 1:]
+
+
+
 def rule_R5_labelled_for(text, log):
     """'l: for _ in 0..n { B }  ->  { let mut vx_i: usize = 0; 'l: while vx_i < n { vx_i += 1; B } }
     only for the shape `'l: for _ in 0..<ident> {` (counter unused)"""
@@ -779,6 +864,7 @@ R6_TABLE = [
     (r'\(\*cb\)\(', 'cb.vx_call('),
     (r'\|_\|', '|_vx0|'),
     (r'\|\(\)\|', '|_vx_u: ()|'),
+    (r"(?<![\w.])(\w+)\.contains\(\['\+', '#'\]\)", r'vx_bstr_has_wild(\1)'),
     (r'\.(map_err|map)\(\s*([A-Z]\w*(?:::[A-Z]\w*)+)\s*\)', r'.\1(|vx_c| \2(vx_c))'),
     (r'\b([A-Za-z_][\w.]*)\s*\.map_or\(\s*([A-Za-z_][\w.]*)\s*,\s*\|val\|\s*cmp::min\(\s*\2\s*,\s*val\s*\)\s*\)', r'vx_min_opt(\2, \1)'),
     (r'([\w.]+(?:\([^()]*\))?(?:\.unwrap\(\))?)\.as_str\(\) != ([\w.]+)\.as_str\(\)', r'!vx_bstr_eq(\1.vx_b(), \2.vx_b())'),
@@ -1319,6 +1405,9 @@ class Unit(object):
                 text = rule_R29_iter_copied(text, log)
             if 'R30' in self.rules:
                 text = rule_R30_and_then(text, log)
+            if 'R31' in self.rules:
+                text = rule_R32_or_else(text, log)
+                text = rule_R31_iter_predicates(text, log)
         self.last_guard_renames = [r[3] for r in log if len(r) > 3]
         for r in log:
             self.rule_log.append({'rule': r[0], 'before': r[1], 'after': r[2], 'where': ctx})
